@@ -219,6 +219,9 @@ def run_case(case, ctx, st):
                     "metric": lambda v: ("manhattan" if v != "manhattan" else "euclidean") if v != "precomputed" else v,
                     "gemini": lambda v: ("tv_ova" if v != "tv_ova" else "mmd_ovo") if (isinstance(v, str) or v is None) and not pre else v}
             keys = [k for k in alts if k in cur and k != "min_samples_leaf"]
+            special = [k for k in keys if k in ("base_kernel", "base_kernel_params", "kernel", "kernel_params", "metric", "gemini", "groups")]
+            if special and rng.random() < 0.5:
+                keys = special
             key = keys[int(rng.integers(0, len(keys)))]
             old = cur[key]
             new = alts[key](old)
